@@ -352,8 +352,13 @@ func mutate(t *rapid.T, b []byte, label string) []byte {
 		default: // big-endian 16-bit field bump
 			if len(b) > 1 {
 				i := rapid.IntRange(0, min(len(b)-2, 60)).Draw(t, label+"_wi")
-				w := rapid.SampledFrom([][2]byte{{0, 0}, {0, 1}, {0xff, 0xff}, {0x01, 0x00}, {0, 0x1f}}).Draw(t, label+"_wv")
-				b[i], b[i+1] = w[0], w[1]
+				if rapid.Bool().Draw(t, label+"_wrap") {
+					// add a multiple of 2^k to a 16-bit count so that count*2 / *4 / *8 wraps in 16-bit (or 8-bit) arithmetic
+					b[i] += rapid.SampledFrom([]byte{0x40, 0x80, 0xc0, 0x20, 0x10}).Draw(t, label+"_wadd")
+				} else {
+					w := rapid.SampledFrom([][2]byte{{0, 0}, {0, 1}, {0xff, 0xff}, {0x01, 0x00}, {0, 0x1f}, {0x40, 0x00}, {0x80, 0x00}}).Draw(t, label+"_wv")
+					b[i], b[i+1] = w[0], w[1]
+				}
 			}
 		}
 	}
